@@ -52,6 +52,10 @@ type Case struct {
 	// grace); the link buffer is small, so the writer's end is blocked in the
 	// connection's Write while further writes and Close arrive
 	StallMs int `json:"stallMs,omitempty"`
+	// StopAfterClose: as soon as Close has returned, the writer's whole endpoint
+	// is stopped (the program exits): its transport connection ends right behind
+	// the graceful close
+	StopAfterClose bool `json:"stopAfterClose,omitempty"`
 	Seed          uint64 `json:"seed"`
 	Salt          uint64 `json:"salt"`
 }
@@ -95,6 +99,7 @@ func genCase(t *rapid.T) Case {
 			}
 		}
 	}
+	c.StopAfterClose = rapid.IntRange(0, 3).Draw(t, "stopAfterClose") == 0
 	c.ClientPat = e2e.GenPattern(t, "cp", 2)
 	c.ServerPat = e2e.GenPattern(t, "sp", 2)
 	c.Seed = rapid.Uint64().Draw(t, "seed")
@@ -476,6 +481,14 @@ func prop(c Case) (o pbt.Outcome) {
 	closeStart := time.Now()
 	writer.Close()
 	closeTook := time.Since(closeStart)
+	if c.StopAfterClose && !c.LateReader && !c.UDP { // on UDP a stopped writer whose close request is lost leaves the reader to its idle timeout
+		if c.ServerWrites {
+			go env.Server.Stop()
+		} else {
+			go env.StopClient()
+		}
+		o.Label("stopAfterClose")
+	}
 	if c.LateReader {
 		// other traffic on the same underlays once the clean-up tick has passed
 		go func() {
